@@ -241,6 +241,13 @@ theorem k_le (hc : CommPairL n k H Lx Lz) : k ≤ n := by
   rw [finrank_PVec] at h
   omega
 
+/-- the commutation + pairing clauses together with the rank clause are `ValidCodeL`
+    (`k ≤ n` is automatic) -/
+theorem toValid (hc : CommPairL n k H Lx Lz) (hr : HasRank (2 * n) H (n - k)) :
+    ValidCodeL n k H Lx Lz :=
+  ⟨hc.wfH, hc.wfX, hc.wfZ, hc.kX, hc.kZ, hc.stab_comm, hc.logX_comm, hc.logZ_comm,
+    hc.pairing, hc.logXX, hc.logZZ, hr, hc.k_le⟩
+
 end CommPairL
 
 /-! ### 4. rank bound -/
@@ -542,5 +549,51 @@ theorem packing_lower_bound {n k : Nat} {H Lx Lz : List (List Nat)}
   obtain ⟨T, hcard, hT⟩ := exists_supp_transversal v reps hpw hmeet
   rw [← hm, ← hcard]
   exact card_le_pauliWeight hlen T (fun q hq => (hT q hq).1)
+
+/-! ### helpers for instantiating the hypotheses on concrete codes -/
+
+instance (n : Nat) (rows : List (List Nat)) : Decidable (WFRows n rows) := by
+  unfold WFRows; infer_instance
+
+/-- independent well-formed rows have rank equal to their number -/
+theorem hasRank_of_indep {n : ℕ} {rows : List (List Nat)} (hwf : WFRows n rows)
+    (hind : Indep (2 * n) rows) : HasRank (2 * n) rows rows.length := by
+  refine ⟨rows, List.Sublist.refl _, rfl, hind, ?_⟩
+  intro v hv
+  exact (inSpan_iff_mem_rowSpan (fun r hr => (hwf r hr).1) (hwf v hv).1 (hwf v hv).2).mpr
+    (toVec_mem_rowSpan n rows v hv)
+
+/-- the support mask `rowWeight` counts -/
+def suppMask (v : List Nat) : List Bool :=
+  List.zipWith (fun x z => x != 0 || z != 0) (xPart v) (zPart v)
+
+/-- executable disjointness test of two Pauli supports -/
+def suppDisjointB (a b : List Nat) : Bool :=
+  (List.zipWith (fun p q => p && q) (suppMask a) (suppMask b)).all (fun t => !t)
+
+theorem suppDisjoint_of_check {n : ℕ} {a b : List Nat} (ha : a.length = 2 * n)
+    (hb : b.length = 2 * n) (h : suppDisjointB a b = true) : SuppDisjoint a b := by
+  intro q ⟨hqa, hqb⟩
+  have h1 : (suppMask a).getD q false = true :=
+    getD_zipWith_supp _ _ (by rw [xPart_len ha, zPart_len ha]) q hqa
+  have h2 : (suppMask b).getD q false = true :=
+    getD_zipWith_supp _ _ (by rw [xPart_len hb, zPart_len hb]) q hqb
+  have l1 : q < (suppMask a).length := by
+    by_contra hge
+    rw [List.getD_eq_getElem?_getD, List.getElem?_eq_none (by omega)] at h1
+    simp at h1
+  have l2 : q < (suppMask b).length := by
+    by_contra hge
+    rw [List.getD_eq_getElem?_getD, List.getElem?_eq_none (by omega)] at h2
+    simp at h2
+  simp only [List.getD_eq_getElem?_getD, List.getElem?_eq_getElem l1, Option.getD_some] at h1
+  simp only [List.getD_eq_getElem?_getD, List.getElem?_eq_getElem l2, Option.getD_some] at h2
+  unfold suppDisjointB at h
+  rw [List.all_eq_true] at h
+  have hlt : q < (List.zipWith (fun p q => p && q) (suppMask a) (suppMask b)).length := by
+    simp; omega
+  have := h _ (List.getElem_mem hlt)
+  rw [List.getElem_zipWith, h1, h2] at this
+  simp at this
 
 end Panqec
